@@ -89,4 +89,45 @@ theorem initRvesting_panics_iff (pool : Bytes) (bal : Balances) (g : RvGenesis) 
   simp only [hs, if_false]
   cases g.fromValid <;> cases canPay bal g.sender g.initReward <;> simp [Outcome.isPanic]
 
+/-! ## parameters: export / import is the identity on the WHOLE validated domain -/
+
+/-- **rvesting parameters round-trip for every list the module's validator accepts** — unsorted lists, zero amounts (one or
+all), one or many denominations, vesting enabled or not: the export carries the parameters as stored, they pass the module's own
+genesis validation, and InitGenesis (`SetParamSet`) stores exactly them -/
+theorem rv_params_roundtrip (p : RvParams) (h : validateRvParams p = true) :
+    validateRvParams (exportRvParams p) = true ∧ setRvParams (exportRvParams p) = .ok p := by
+  simp [exportRvParams, setRvParams, h]
+
+/-- what a parameter-change proposal accepts, the genesis path accepts and reproduces -/
+theorem rv_update_then_roundtrip (cur p : RvParams) (st : RvParams) (h : updateRvParams cur p = .ok st) :
+    setRvParams (exportRvParams st) = .ok st := by
+  unfold updateRvParams at h
+  split at h
+  · next hv =>
+    injection h with h; subst h
+    exact (rv_params_roundtrip _ hv).2
+  · simp at h
+
+theorem sorted_rvParamsKV_store (p : RvParams) : Sorted (setAll [] (rvParamsKV p)) := sorted_setAll sorted_nil _
+
+/-- the same on the level of the parameter subspace entries -/
+theorem rv_params_kv_roundtrip (p : RvParams) :
+    initParams (exportParams (setAll [] (rvParamsKV p))) = setAll [] (rvParamsKV p) :=
+  roundtrip_params (sorted_rvParamsKV_store p)
+
+/-- validated but not canonical: `5zzz,7aaa` (unsorted) and `100atele,0paused` (a zero amount), `0atele` (all zero) -/
+def rvUnsorted : RvParams := ⟨true, [⟨"zzz", some 5⟩, ⟨"aaa", some 7⟩]⟩
+def rvOneZero : RvParams := ⟨false, [⟨"atele", some 100⟩, ⟨"paused", some 0⟩]⟩
+def rvAllZero : RvParams := ⟨true, [⟨"atele", some 0⟩]⟩
+
+/-- why an export that canonicalises the reward list (`sdk.NewCoins`: sort, drop zeros) violates the property: all three lists are
+accepted by the validator, the canonical form differs from what is stored, and for the all-zero list the canonical export is
+empty and FAILS the module's own genesis validation -/
+theorem canonical_export_breaks_roundtrip :
+    (validateRvParams rvUnsorted = true ∧ canonCoins rvUnsorted.reward ≠ rvUnsorted.reward) ∧
+    (validateRvParams rvOneZero = true ∧ canonCoins rvOneZero.reward ≠ rvOneZero.reward) ∧
+    (validateRvParams rvAllZero = true ∧ canonCoins rvAllZero.reward = [] ∧
+      validateRvParams { rvAllZero with reward := canonCoins rvAllZero.reward } = false) := by
+  decide
+
 end TM.Genesis
